@@ -140,7 +140,7 @@ fn connect_body(v5: bool, shape: u8, cap: usize) {
 
 // @gv props=C02,C07 tier=quick required=yes fns=write_connect_encoding_steps5,compute_connect_packet_length_properties5,compute_connect_flags
 // @gv bounds="CONNECT/MQTT5 with client id, user name and password, no properties; symbolic keep-alive and clean start"
-// @gv timeout=1200 mem=12
+// @gv timeout=1200 mem=5
 #[kani::proof]
 #[kani::unwind(16)]
 #[kani::stub(std::fmt::format, stub_format)]
@@ -148,7 +148,7 @@ fn c02_connect5_credentials() { connect_body(true, 1 | 2, 16) }
 
 // @gv props=C02,C07 tier=quick required=yes fns=write_connect_encoding_steps5,compute_connect_packet_length_properties5,compute_connect_flags
 // @gv bounds="CONNECT/MQTT5 WITHOUT client id (zero-length id) with session expiry, receive maximum and maximum packet size (symbolic values)"
-// @gv timeout=1200 mem=12
+// @gv timeout=1200 mem=5
 #[kani::proof]
 #[kani::unwind(16)]
 #[kani::stub(std::fmt::format, stub_format)]
@@ -156,7 +156,7 @@ fn c02_connect5_props_a() { connect_body(true, 8, 16) }
 
 // @gv props=C02,C07 tier=quick required=yes fns=write_connect_encoding_steps5,compute_connect_packet_length_properties5
 // @gv bounds="CONNECT/MQTT5 with client id, topic alias maximum (symbolic), request response information = 1, request problem information = 0, one user property"
-// @gv timeout=1200 mem=14
+// @gv timeout=1200 mem=5
 #[kani::proof]
 #[kani::unwind(22)]
 #[kani::stub(std::fmt::format, stub_format)]
@@ -164,7 +164,7 @@ fn c02_connect5_props_b() { connect_body(true, 1 | 16 | 32, 32) }
 
 // @gv props=C02,C07 tier=quick required=yes fns=write_connect_encoding_steps5,compute_connect_packet_length_properties5,compute_connect_flags
 // @gv bounds="CONNECT/MQTT5 with client id and a will (topic, payload, will delay interval; symbolic will QoS and retain)"
-// @gv timeout=1200 mem=12
+// @gv timeout=1200 mem=5
 #[kani::proof]
 #[kani::unwind(18)]
 #[kani::stub(std::fmt::format, stub_format)]
@@ -172,7 +172,7 @@ fn c02_connect5_will() { connect_body(true, 1 | 4, 16) }
 
 // @gv props=C02,C07 tier=quick required=yes fns=write_connect_encoding_steps311,compute_connect_packet_length_properties311,compute_connect_flags
 // @gv bounds="CONNECT/MQTT3.1.1 with client id, will, user name, password while every MQTT5-only property is set: none of them may reach the wire"
-// @gv timeout=1200 mem=12
+// @gv timeout=1200 mem=5
 #[kani::proof]
 #[kani::unwind(18)]
 #[kani::stub(std::fmt::format, stub_format)]
@@ -180,7 +180,7 @@ fn c02_connect311_full() { connect_body(false, 1 | 2 | 4 | 8 | 16 | 32, 16) }
 
 // @gv props=C02,C07 tier=quick required=yes fns=write_connect_encoding_steps5,compute_connect_packet_length_properties5
 // @gv bounds="CONNECT/MQTT5 with client id and a will whose property section (delay interval, 120-byte response topic, 8 bytes of correlation data = 134 bytes) crosses the one-byte Variable Byte Integer boundary"
-// @gv timeout=1200 mem=14
+// @gv timeout=1200 mem=5
 #[kani::proof]
 #[kani::unwind(24)]
 #[kani::stub(std::fmt::format, stub_format)]
